@@ -85,23 +85,44 @@ theorem C05_node_failure_is_the_raised_exception (c : Ctx) (s : St) (obs : List 
 /-! ### Plain pipelines, all schedules -/
 
 /-- **C05 (plain), soundness of the verdict**: an error verdict is the policy's failure of a node of the pipeline (all of
-whose sources have values), wrapped in the result iff it is an `Exception`; never an engine artefact -/
+whose sources have values) or the exception a collaborator (event manager, artifact store) raised; it is wrapped in the
+result iff it is an `Exception` raised inside the engine; never an engine artefact -/
 theorem C05_plain_error_is_a_required_node_failure (P : Program) (d : DagRef) (val : Node → Option Val) (hp : PlainP P d)
     (hsol : Solution P d val) (s : St) (h : Live P s) (hpending : s.outcome = none) (c : Choice)
     (hor : OracleOK P s c) (s' : St) (obs : List Obs) (hs : step P s c = some (s', obs)) (o : Outcome)
     (ho : s'.outcome = some o) :
-    (∀ e, o = .error e → e.isException = true ∧ ∃ n ∈ d.nodes, NodeFails P val n e) ∧
-    (∀ e, o = .raised e → e.isException = false ∧ ∃ n ∈ d.nodes, NodeFails P val n e) := by
+    (∀ e, o = .error e → e.isException = true ∧ FailCause P d val e) ∧
+    (∀ e, o = .raised e → CollabFails P e ∨ (e.isException = false ∧ FailCause P d val e)) := by
   have hinv : PInv P d val s := pinv_live hp h hpending
   rcases pinv_step hp hinv c (s', obs) hs hor (coreInv_reach h.reach) with ⟨o', ho', hok⟩ | h2
   · simp only at ho'
     rw [ho] at ho'; cases ho'
     constructor
     · intro e he; subst he; exact ⟨hok.1, hok.2 hsol⟩
-    · intro e he; subst he; exact ⟨hok.1, hok.2 hsol⟩
+    · intro e he; subst he
+      rcases hok with h1 | ⟨h1, h2⟩
+      · exact Or.inl h1
+      · exact Or.inr ⟨h1, h2 hsol⟩
   · have := h2.quiet.pend
     simp only at this
     rw [ho] at this; cases this
+
+/-- with collaborators that do not raise, the cause is a node of the pipeline -/
+theorem C05_plain_error_is_a_node_failure_no_collaborator_faults (P : Program) (d : DagRef) (val : Node → Option Val)
+    (hp : PlainP P d) (hsol : Solution P d val) (hnr : ∀ e, ¬ CollabFails P e) (s : St) (h : Live P s)
+    (hpending : s.outcome = none) (c : Choice) (hor : OracleOK P s c) (s' : St) (obs : List Obs)
+    (hs : step P s c = some (s', obs)) (e : Exc) (ho : s'.outcome = some (.error e) ∨ s'.outcome = some (.raised e)) :
+    ∃ n ∈ d.nodes, NodeFails P val n e := by
+  rcases ho with ho | ho
+  · have := (C05_plain_error_is_a_required_node_failure P d val hp hsol s h hpending c hor s' obs hs _ ho).1 e rfl
+    rcases this.2 with h1 | h1
+    · exact h1
+    · exact absurd h1 (hnr e)
+  · have := (C05_plain_error_is_a_required_node_failure P d val hp hsol s h hpending c hor s' obs hs _ ho).2 e rfl
+    rcases this with h1 | ⟨_, h1 | h1⟩
+    · exact absurd h1 (hnr e)
+    · exact h1
+    · exact absurd h1 (hnr e)
 
 /-- **C05 (plain), completeness of the verdict**: if some node of the pipeline fails (in the dataflow reading: its
 sources have values and the retry / default policy ends in a failure), then no execution returns a value — every node
